@@ -7,6 +7,7 @@ from props import c13 as G
 
 FILES = G.FILES
 TRUSTED = G.TRUSTED
+EXPLANATION = ("Greedy part of C12: theorems in Props/C12_greedy.v (translated admission test = documented rule, cancel <-> hopeless for EDF/FIFO, LSF never cancels); the Coq monitor c12_check (documented rule, proved equivalent to its Prop form, proved true of the model) runs on the implementation's decisions for inputs concentrated on the boundary deadline = now + fastest runtime.")
 PROPS_FILE = "C12_greedy"
 
 
